@@ -1,7 +1,7 @@
 (** Correspondence evaluator for C15: the harness writes what graphql.Parse / Flatten / the visit
     counters did on each input; [mismatches_c15] lists the cases on which the model says otherwise. *)
 From Coq Require Import List ZArith String Bool Arith.
-From Thunder Require Import Lib.Json GqlTyping.Types GqlTyping.Parse.
+From Thunder Require Import Lib.Json GqlTyping.Types GqlTyping.Parse GqlTyping.Envelope.
 Import ListNotations.
 Open Scope string_scope.
 Open Scope list_scope.
@@ -12,7 +12,14 @@ Inductive fobs : Type := FOk (aliases : list string) | FErr | FPanic.
 Inductive ccase : Type :=
 | PCase (doc : gdoc) (vars : jargs) (codes : list nat) (name kind : string) (flat : fobs)
     (* codes: what graphql.Parse did over several runs (0 ok, 1 client error, 2 other error, 99 panic) *)
-| BCase (doc : gdoc) (parse_visits prepare_visits : Z).
+| BCase (doc : gdoc) (parse_visits prepare_visits : Z)
+| ECase (script : list (option json * (bool * bool))) (observed : list (nat * string))
+    (* every envelope sent on one connection (ordered JSON, or None for text that is not JSON; the verdicts of
+       Parse+PrepareQuery against the Query and the Mutation root) and what the read loop did with each:
+       0 the connection ended, 1 one error envelope, 2 one echo envelope, 3 nothing written by the read loop;
+       with the id the reply carried *)
+| HCase (bodies : list (option json * bool)) (errors : list bool).
+    (* HTTP POST bodies with the verdict of Parse+PrepareQuery, and whether the response carried errors *)
 
 (** The verdict is compared, never the wording of an error: 0 accepted, 1 client error, 99 crash
     (2 = an error that is not a graphql.ClientError: the model has none). *)
@@ -41,6 +48,37 @@ Definition query_has_dirs (q : query) : bool :=
   existsb has_dirs (q_sel q) || existsb (fun e => existsb has_dirs (snd (snd e))) (q_frags q).
 
 Definition root_of (kind : string) : string := if String.eqb kind "mutation" then "Mutation" else "Query".
+
+Definition reaction_code (r : reaction) : nat :=
+  match r with REnds => 0 | RSyncError => 1 | REcho => 2 | RNoSyncReply => 3 end.
+
+Fixpoint model_script (subs : list string) (l : list (option json * (bool * bool))) : list (nat * string) :=
+  match l with
+  | [] => []
+  | (i, valid) :: r =>
+      let '(re, subs') := env_step 200 subs i valid in
+      (reaction_code re, match re with RSyncError => reply_id i | REcho => reply_id i | _ => "" end)
+        :: match re with REnds => [] | _ => model_script subs' r end
+  end.
+
+Definition obs_eqb (a b : nat * string) : bool := Nat.eqb (fst a) (fst b) && String.eqb (snd a) (snd b).
+
+Fixpoint list_eqb' {A} (eq : A -> A -> bool) (a b : list A) : bool :=
+  match a, b with
+  | [], [] => true
+  | x :: a', y :: b' => eq x y && list_eqb' eq a' b'
+  | _, _ => false
+  end.
+
+(** 8 the read loop reacted to some envelope otherwise than [step] says; 9 an HTTP body. *)
+Definition check_env_case (c : ccase) : list nat :=
+  match c with
+  | ECase script observed => if list_eqb' obs_eqb (model_script [] script) observed then [] else [8]
+  | HCase bodies errors =>
+      if list_eqb' Bool.eqb (map (fun b => match http_step (fst b) (snd b) with HErrors => true | HRuns => false end) bodies) errors
+      then [] else [9]
+  | _ => []
+  end.
 
 (** Component codes: 1 verdict (accepted / client error / crash), 2 query name and kind, 3 Flatten (aliases / error / panic),
     5 visits of detectConflicts, 6 calls of PrepareQuery, 7 model rejects a bomb the code accepted. *)
@@ -80,6 +118,7 @@ Definition check_case (sch : schema) (c : ccase) : list nat :=
           end
       | _ => [7]
       end
+  | _ => check_env_case c
   end.
 
 Fixpoint mismatches_c15 (sch : schema) (_ : nat) (cs : list (nat * ccase)) : list (nat * list nat) :=
